@@ -307,7 +307,11 @@ func checkScannerSeq(c SeqCase) error {
 			if !ok {
 				return fmt.Errorf("%s: a fresh scanner accepted a kind mismatch", where)
 			}
-			if same, why := sameBits(gF, exp); !same {
+			same, why := sameBits(gF, exp)
+			if c.Dest == "Bound" {
+				same, why = matchBound(gF, modelBound(gen.Canonical(st.Geom.V)))
+			}
+			if !same {
 				return fmt.Errorf("%s: fresh scanner value differs from the expected one: %s", where, why)
 			}
 			if c.Pkg == "ewkb" && sF != st.SRID {
